@@ -55,7 +55,7 @@ def subst(f, m):
     return tuple(subst(c, m) if isinstance(c, tuple) else c for c in f)
 
 
-def h_dt(l, r, N, mode, ext=True):
+def h_dt(l, r, N, mode, ext=True, pre=0):
     l, r = T(l), T(r)
     vs = sorted(variables(l) | variables(r))
     h = max(hor(l), hor(r))
@@ -70,6 +70,13 @@ def h_dt(l, r, N, mode, ext=True):
             gl = [p[1] for p in dt.offline(sl, w, N)]
             gr = [p[1] for p in dt.offline(sr, w, N)]
         else:
+            if pre:
+                # "the same monitor" also means a monitor with a history that was reset(): both sides are fed a history and reset first
+                w0 = dt.trace(env, vs, pre, ext=False, prefix='pre_')
+                dt.online(sl, w0, pre)
+                dt.online(sr, w0, pre)
+                sl.reset()
+                sr.reset()
             gl, gr = dt.online(sl, w, N), dt.online(sr, w, N)
         env.observe('lhs', gl)
         if mode == 'pastified':
@@ -136,6 +143,8 @@ def obligations(tier, rng):
                 out.append(ob('C18', 'dt', 'dt-offline/%s/%s/N=%d' % (name, oname, N), l=L, r=R, N=N, mode='offline', ext=ext))
                 if not fut and N > 1:
                     out.append(ob('C18', 'dt', 'dt-online/%s/%s/N=%d' % (name, oname, N), l=L, r=R, N=N, mode='online', ext=ext))
+                if not fut and N == 3 and oname in ('var', 'past'):
+                    out.append(ob('C18', 'dt', 'dt-online-after-reset/%s/%s/N=%d' % (name, oname, N), l=L, r=R, N=N, mode='online', ext=ext, pre=2))
             if fut and not unb and oname in ('var', 'pred', 'bool', 'fut'):
                 h = max(hor(L), hor(R))
                 out.append(ob('C18', 'dt', 'dt-pastified/%s/%s/N=%d' % (name, oname, h + 3), l=L, r=R, N=h + 3, mode='pastified', ext=False))
